@@ -428,10 +428,12 @@ theorem invR_unique (s : St κ) (t : Task) (k : κ) (km : Bool) (h : InvR s) : I
 theorem invR_reap (cfg : Cfg) (s : St κ) (h : InvR s) : InvR (reapStep cfg s) := by
   unfold reapStep
   split
-  · unfold markUnstarted
-    split
-    · exact invR_congr s _ h rfl rfl rfl rfl rfl rfl rfl (fun _ hx => hx) rfl rfl rfl rfl
+  · split
     · exact h
+    · unfold markUnstarted
+      split
+      · exact invR_congr s _ h rfl rfl rfl rfl rfl rfl rfl (fun _ hx => hx) rfl rfl rfl rfl
+      · exact h
   · obtain ⟨e1, e2, e3, e4, e5, e6, _⟩ := C13.reapCfg_fields (!cfg.reaperDetached) s.u
     exact invR_congr s _ h e1 e2 e3 e5 e6 e4 rfl (fun _ hx => hx) rfl rfl rfl rfl
 
@@ -1093,9 +1095,11 @@ theorem invC_step (cfg : Cfg) (s : St κ) (op : Op κ) (h : InvC cfg s) : InvC c
     · exact h
   | reap =>
     simp only [step, reapStep]; split
-    · unfold markUnstarted; split
-      · exact invC_u cfg s _ h
+    · split
       · exact h
+      · unfold markUnstarted; split
+        · exact invC_u cfg s _ h
+        · exact h
     · exact invC_u cfg s _ h
   | endBody t oc => exact invC_endBody cfg s t oc h
   | cbBegin t => exact invC_cbBegin cfg s t h
@@ -1322,9 +1326,11 @@ theorem invL_step (cfg : Cfg) (s : St κ) (op : Op κ) (hc : InvC cfg s) (h : In
     · exact h
   | reap =>
     simp only [step, reapStep]; split
-    · unfold markUnstarted; split
-      · exact invL_congr cfg s _ h rfl rfl (fun _ e => e) rfl rfl rfl
+    · split
       · exact h
+      · unfold markUnstarted; split
+        · exact invL_congr cfg s _ h rfl rfl (fun _ e => e) rfl rfl rfl
+        · exact h
     · exact invL_congr cfg s _ h rfl rfl (fun _ e => e) rfl rfl rfl
   | endBody t oc =>
     simp only [step, endBodyStep]; split
@@ -1389,5 +1395,169 @@ theorem invL_run (cfg : Cfg) (ops : List (Op κ)) : InvL cfg (run cfg ops) := by
     | cons op ops ih => intro s hc h; exact ih _ (invC_step cfg s op hc) (invL_step cfg s op hc h)
   exact this ops _ (invC_init cfg) ⟨by intro t h; simp [init] at h, by intro t r h; simp [init] at h,
     by intro t h; simp [init] at h⟩
+
+/-! ### a task is only ever killed before its first segment when the reaper does not wait for it -/
+
+structure InvS (cfg : Cfg) (s : St κ) : Prop where
+  still : ∀ t, s.stillborn t = true → cfg.reaperWaitsForStart = false
+  creq : ∀ t, (s.phase t = .none ∨ s.phase t = .created) → s.u.cancelReq t = true → cfg.reaperWaitsForStart = false
+
+theorem invS_congr (cfg : Cfg) (s s' : St κ) (h : InvS cfg s) (e1 : s'.u.cancelReq = s.u.cancelReq)
+    (e2 : ∀ t, (s'.phase t = .none ∨ s'.phase t = .created) → (s.phase t = .none ∨ s.phase t = .created))
+    (e3 : s'.stillborn = s.stillborn) : InvS cfg s' :=
+  ⟨fun t ht => h.still t (by rw [← e3]; exact ht), fun t hp hc => h.creq t (e2 t hp) (by rw [← e1]; exact hc)⟩
+
+theorem unique_cancelReq (u : C13.St κ) (t : Task) (k : κ) (km : Bool) :
+    (C13.uniqueStep u t k km).cancelReq = u.cancelReq := by
+  unfold C13.uniqueStep
+  split
+  · rfl
+  · split
+    · split
+      · split
+        · rfl
+        · exact (C13.claim_queue _ t k).2.1
+      · rw [(C13.claim_queue _ t k).2.1]; unfold C13.killPrev; split <;> rfl
+    · exact (C13.claim_queue _ t k).2.1
+
+/-- moving a task out of `none` / `created`, or between them, never creates an obligation -/
+theorem phase_upd_early (ph : Task → Phase) (t x : Task) (p : Phase)
+    (hx : upd ph t p x = .none ∨ upd ph t p x = .created) (hp : p = .none ∨ p = .created → ph t = .none ∨ ph t = .created) :
+    ph x = .none ∨ ph x = .created := by
+  by_cases e : x = t
+  · subst e; simp only [upd_same] at hx; exact hp hx
+  · simpa [upd_other _ _ _ _ e] using hx
+
+theorem invS_bail (cfg : Cfg) (s : St κ) (t : Task) (r : Res) (h : InvS cfg s) : InvS cfg (bail cfg s t r) := by
+  unfold bail
+  split
+  · exact invS_congr cfg s _ h (by simp only [finish]; exact (C13.exit_queue _ t).2.2.1)
+      (fun x hx => phase_upd_early s.phase t x .done hx (by simp)) rfl
+  · exact invS_congr cfg s _ h rfl (fun x hx => phase_upd_early s.phase t x .done hx (by simp)) rfl
+
+theorem invS_step (cfg : Cfg) (s : St κ) (op : Op κ) (hr : InvR s) (h : InvS cfg s) : InvS cfg (step cfg s op) := by
+  cases op with
+  | create t wc pre =>
+    simp only [step, createStep]; split
+    · exact h
+    · rename_i hp
+      have hp : s.phase t = .none := Classical.not_not.1 hp
+      refine invS_congr cfg s _ h ?_ (fun x hx => phase_upd_early s.phase t x .created hx (fun _ => Or.inl hp)) rfl
+      show (if cfg.oursAtCreate then { s.u with ours := upd s.u.ours t true } else s.u).cancelReq = s.u.cancelReq
+      split <;> rfl
+  | start t =>
+    simp only [step, startStep]; split
+    · exact h
+    · rename_i hp
+      have hp : s.phase t = .created := Classical.not_not.1 hp
+      split
+      · rename_i hcr
+        have hf := h.creq t (Or.inr hp) hcr
+        unfold killUnstarted
+        refine ⟨?_, ?_⟩
+        · intro x hx
+          by_cases e : x = t
+          · exact hf
+          · exact h.still x (by simpa [upd_other _ _ _ _ e] using hx)
+        · intro x hx hc
+          exact h.creq x (phase_upd_early s.phase t x .done hx (by simp)) hc
+      · refine invS_congr cfg s _ h ?_ (fun x hx => phase_upd_early s.phase t x .running hx (by simp)) rfl
+        show (C13.spawnStep s.u t false).cancelReq = s.u.cancelReq
+        unfold C13.spawnStep; split <;> rfl
+  | storeCtx t =>
+    simp only [step, storeCtxStep]; split
+    · exact invS_congr cfg s _ h rfl (fun _ hx => hx) rfl
+    · exact h
+  | addCb a t c args =>
+    simp only [step, addCbStep]; split
+    · exact h
+    · split <;> exact invS_congr cfg s _ h rfl (fun _ hx => hx) rfl
+  | removeCb a t c =>
+    simp only [step, removeCbStep]; split
+    · exact h
+    · split <;> exact invS_congr cfg s _ h rfl (fun _ hx => hx) rfl
+  | cancel a tg =>
+    simp only [step, cancelStep]; split
+    · exact h
+    · split
+      · exact invS_congr cfg s _ h rfl (fun _ hx => hx) rfl
+      · split <;> exact invS_congr cfg s _ h rfl (fun _ hx => hx) rfl
+  | unique t k km =>
+    simp only [step, uniqueStep]; split
+    · exact invS_congr cfg s _ h (unique_cancelReq s.u t k km) (fun _ hx => hx) rfl
+    · exact h
+  | reap =>
+    simp only [step, reapStep]; split
+    · split
+      · exact h
+      · rename_i hf
+        have hf : cfg.reaperWaitsForStart = false := C13.not_true_false hf
+        exact ⟨fun _ _ => hf, fun _ _ _ => hf⟩
+    · refine ⟨h.still, ?_⟩
+      intro x hx hc
+      -- a cancel is delivered to running tasks only
+      have hc' : (C13.reapStepCfg (!cfg.reaperDetached) s.u).cancelReq x = true := hc
+      unfold C13.reapStepCfg at hc'
+      split at hc'
+      · exact h.creq x hx hc'
+      · split at hc'
+        · exact h.creq x hx hc'
+        · rename_i hd q hq
+          split at hc'
+          · rename_i hl
+            simp only [upd_apply] at hc'
+            split at hc'
+            · rename_i e; subst e
+              have := (hr.live x).1 hl
+              unfold Live at this
+              rcases hx with e | e <;> (rw [e] at this; simp at this)
+            · exact h.creq x hx hc'
+          · exact h.creq x hx hc'
+  | endBody t oc =>
+    simp only [step, endBodyStep]; split
+    · exact h
+    · exact invS_congr cfg s _ h rfl (fun x hx => phase_upd_early s.phase t x .finalizing hx (by simp)) rfl
+  | cbBegin t =>
+    simp only [step, cbBeginStep]; split
+    · exact h
+    · split
+      · exact h
+      · split
+        · exact h
+        · split
+          · exact invS_bail cfg s t _ h
+          · split
+            · exact h
+            · exact invS_congr cfg s _ h rfl (fun _ hx => hx) rfl
+  | cbEnd t r =>
+    simp only [step, cbEndStep]; split
+    · exact h
+    · split
+      · exact h
+      · cases r with
+        | ok => exact invS_congr cfg s _ h rfl (fun _ hx => hx) rfl
+        | raises =>
+          simp only []
+          split <;> exact invS_congr cfg s _ h rfl (fun _ hx => hx) rfl
+        | cancelled => exact invS_bail cfg _ t _ (invS_congr cfg s _ h rfl (fun _ hx => hx) rfl)
+  | cleanup t =>
+    simp only [step, cleanupStep]; split
+    · exact h
+    · split
+      · exact h
+      · split
+        · exact h
+        · split
+          · exact invS_bail cfg s t _ h
+          · exact invS_congr cfg s _ h (by simp only [finish]; exact (C13.exit_queue _ t).2.2.1)
+              (fun x hx => phase_upd_early s.phase t x .done hx (by simp)) rfl
+
+theorem invS_run (cfg : Cfg) (ops : List (Op κ)) : InvS cfg (run cfg ops) := by
+  have : ∀ (ops : List (Op κ)) (s : St κ), InvR s → InvS cfg s → InvS cfg (ops.foldl (step cfg) s) := by
+    intro ops
+    induction ops with
+    | nil => intro s _ h; exact h
+    | cons op ops ih => intro s hr h; exact ih _ (invR_step cfg s op hr) (invS_step cfg s op hr h)
+  exact this ops _ invR_init ⟨by intro t h; simp [init] at h, by intro t _ h; simp [init, C13.init] at h⟩
 
 end PsModel.C14
